@@ -6,6 +6,7 @@ import fcntl
 import glob
 import hashlib
 import os
+import time
 import re
 import shutil
 import subprocess
@@ -104,6 +105,8 @@ class _lock:
         self.f.close()
 
 
+COV = bool(os.environ.get('VERIF_COV'))
+
 SAN = ['-fsanitize=address,undefined', '-fno-sanitize-recover=undefined', '-fno-omit-frame-pointer']
 
 VARIANTS = {
@@ -116,6 +119,9 @@ VARIANTS = {
     'msan': ('clang', ['-O1', '-g', '-w', '-fsanitize=memory', '-fsanitize-memory-track-origins', '-fno-omit-frame-pointer'],
              ['-fsanitize=memory'], False),
     'cov': ('gcc', ['-O0', '-w', '--coverage'], ['--coverage'], False),
+    # anchor-coverage audit (bin/anchorcov, VERIF_COV=1): every compiler run of a check goes to these two
+    'acov': ('gcc', ['-O0', '-w', '--coverage'], ['--coverage'], False),
+    'fs-acov': ('gcc', ['-O0', '-w', '--coverage'], ['--coverage'], True),
     'alloc': ('gcc', ['-O2', '-w'], [os.path.join(HARNESS, 'allocpol.c')], False),
 }
 
@@ -146,6 +152,8 @@ def get(variant):
         return stage2()[0]
     if variant == 'fs-stage2':
         return stage2()[1]
+    if COV and variant in ('plain', 'asan', 'clang', 'alloc', 'fs', 'fs-asan'):
+        variant = 'fs-acov' if variant.startswith('fs') else 'acov'
     cc, cflags, ldflags, isfs = VARIANTS[variant]
     d = os.path.join(root(), variant)
     exe = os.path.join(d, 'forksrv' if isfs else 'cproc-qbe')
@@ -188,8 +196,10 @@ def prune(keep=3):
     ds = [x for x in ds if os.path.isdir(x) and re.fullmatch(r'[0-9a-f]{16}', os.path.basename(x))]
     ds.sort(key=lambda x: os.path.getmtime(x), reverse=True)
     cur = os.path.join(BUILD, srchash())
+    now = time.time()
     for x in ds[keep:]:
-        if x != cur:
+        # a tree touched within the last three hours may belong to a check that is running right now against another copy
+        if x != cur and now - os.path.getmtime(x) > 3 * 3600:
             shutil.rmtree(x, ignore_errors=True)
 
 
@@ -201,7 +211,7 @@ def touch():
 
 def harness(name, hsrcs, reposrcs, cflags=('-O2', '-g', '-w'), libs=('-lm',), cc='gcc'):
     """Build /verif/harness/<hsrcs> linked with repository sources <reposrcs> (compiled fresh)."""
-    d = os.path.join(root(), 'harness')
+    d = os.path.join(root(), 'harness-acov' if COV else 'harness')
     exe = os.path.join(d, name)
     srcs = [os.path.join(HARNESS, s) for s in hsrcs]
     newest = max(os.path.getmtime(s) for s in srcs)
@@ -212,7 +222,15 @@ def harness(name, hsrcs, reposrcs, cflags=('-O2', '-g', '-w'), libs=('-lm',), cc
             return exe
         os.makedirs(d, exist_ok=True)
         sd = srcdir()
-        run([cc] + list(cflags) + ['-I', sd, '-o', exe + '.tmp'] + srcs + [os.path.join(sd, s) for s in reposrcs] + list(libs))
+        if COV:
+            objs = []
+            for s in reposrcs:
+                o = os.path.join(d, s[:-2] + '.o')
+                run(['gcc', '-O0', '-g', '-w', '--coverage', '-I', sd, '-c', '-o', o, os.path.join(sd, s)])
+                objs.append(o)
+            run([cc] + [f for f in cflags if 'sanitize' not in f] + ['-I', sd, '-o', exe + '.tmp'] + srcs + objs + list(libs) + ['--coverage'])
+        else:
+            run([cc] + list(cflags) + ['-I', sd, '-o', exe + '.tmp'] + srcs + [os.path.join(sd, s) for s in reposrcs] + list(libs))
         os.rename(exe + '.tmp', exe)
     return exe
 
@@ -230,7 +248,8 @@ static const char *const linkcmd[]       = {"LD", "-ld-base1", "-ld-base2"};
 def driver(triple, real=False):
     """Build /repo's driver.c against a generated config.h: with the simulated world (drvmc) or,
     real=True, as an ordinary executable whose tools are stub programs in tooldir."""
-    tag = 'drv-%s%s' % (triple, '-real' if real else '')
+    tag = 'drv-%s%s%s' % (triple, '-real' if real else '', '-acov' if COV else '')
+    covf = ['--coverage'] if COV else []
     d = os.path.join(root(), tag)
     exe = os.path.join(d, 'cproc' if real else 'drvmc')
     world = os.path.join(HARNESS, 'world.c')
@@ -255,10 +274,11 @@ def driver(triple, real=False):
         for n in ('driver.c', 'util.c', 'util.h'):
             shutil.copy(os.path.join(sd, n), d)
         if real:
-            run(['gcc', '-O1', '-g', '-w', '-I', d, '-o', exe + '.tmp', os.path.join(d, 'driver.c'), os.path.join(d, 'util.c')])
+            run(['gcc', '-O1', '-g', '-w', '-I', d, '-c', '-o', os.path.join(d, 'driver.o'), os.path.join(d, 'driver.c')] + covf)
+            run(['gcc', '-O1', '-g', '-w', '-I', d, '-o', exe + '.tmp', os.path.join(d, 'driver.o'), os.path.join(d, 'util.c')] + covf)
         else:
-            run(['gcc', '-O1', '-g', '-w', '-I', d, '-Dmain=driver_main', '-c', '-o', os.path.join(d, 'driver.o'), os.path.join(d, 'driver.c')])
-            run(['gcc', '-O1', '-g', '-Wall', '-o', exe + '.tmp', world, os.path.join(d, 'driver.o'), os.path.join(d, 'util.c')])
+            run(['gcc', '-O1', '-g', '-w', '-I', d, '-Dmain=driver_main', '-c', '-o', os.path.join(d, 'driver.o'), os.path.join(d, 'driver.c')] + covf)
+            run(['gcc', '-O1', '-g', '-Wall', '-o', exe + '.tmp', world, os.path.join(d, 'driver.o'), os.path.join(d, 'util.c')] + covf)
         os.rename(exe + '.tmp', exe)
     return exe
 
